@@ -5,8 +5,8 @@ root = os.path.dirname(os.path.dirname(os.path.abspath(__file__)))
 print("| id | change (one line) | confirmed | caught by (quick) | first run | strengthened |")
 print("|---|---|---|---|---|---|")
 def fmt(cs):
-    hit = [c.split(":")[0] for c in cs if c.endswith("VIOLATION")]
-    miss = [c.split(":")[0] for c in cs if not c.endswith("VIOLATION")]
+    hit = [c.split(":")[0] + (" (no failing input)" if c.endswith("NOINPUT") else "") for c in cs if "VIOLATION" in c]
+    miss = [c.split(":")[0] for c in cs if "VIOLATION" not in c]
     return ", ".join(hit) if hit else "—", miss
 for p in sorted(glob.glob(os.path.join(root, "seeded/*/meta.json"))):
     m = json.load(open(p)); sid = p.split("/")[-2]
